@@ -32,6 +32,8 @@ type Case struct {
 	Handlers     []H  `json:"handlers"`
 	Publishes    int  `json:"publishes"`
 	PanicHandler bool `json:"panic_handler"`
+	// PHDelayUs makes the panic handler take this long (a slow reporter).
+	PHDelayUs int `json:"ph_delay_us,omitempty"`
 	// ambient configuration that must not change the outcome
 	Obs   bool `json:"obs,omitempty"`   // an Observability implementation is installed
 	Hooks bool `json:"hooks,omitempty"` // before/after publish hooks are installed
@@ -131,6 +133,9 @@ func run(c *Case) *vkit.Outcome {
 			mu.Lock()
 			ph = append(ph, call)
 			mu.Unlock()
+			if c.PHDelayUs > 0 {
+				time.Sleep(time.Duration(c.PHDelayUs) * time.Microsecond)
+			}
 		}))
 	}
 	var obsErrs int32
@@ -283,6 +288,14 @@ func run(c *Case) *vkit.Outcome {
 			o.Failf("", "%d handler invocations panicked, observability saw %d handler completions with an error", len(wantPH), obsErrs)
 		}
 		o.Class("with_observability")
+	}
+	if c.PHDelayUs > 0 {
+		for _, h := range c.Handlers {
+			if h.Async && h.Seq && h.Panic == "always" && !h.Once && c.Publishes >= 3 {
+				o.Class("slow_panic_handler_with_async_sequential_handler_panicking_on_consecutive_events")
+				break
+			}
+		}
 	}
 	if o.Nontrivial {
 		o.Class("panic_not_last_or_seq_once_async_then_further_publish")
